@@ -73,6 +73,30 @@ class SymSlice:
     """lst[start:stop] of a SymList, kept lazy so that tuple unpacking can check the length"""
     def __init__(self, arr, start, stop): self.arr, self.start, self.stop = arr, start, stop
 
+class SymMap:
+    """a dict with symbolic (z3 String) keys: explicit entries made on this path over an arbitrary prior content
+    (membership predicate has0, values produced on demand by base_value(key))"""
+    def __init__(self, name, base_value=None, empty=False):
+        self.name = name; self.entries = []; self.empty = empty
+        self.has0 = z3.Function(name + "_has", z3.StringSort(), z3.BoolSort())
+        self.base_value = base_value; self.memo = {}
+    def contains(self, key):
+        key = zstr(key)
+        cs = [key == k for k, _ in self.entries]
+        if not self.empty: cs.append(self.has0(key))
+        return z3.Or(cs) if cs else False
+    def lookup(self, eng, key, default=KeyError):
+        key = zstr(key)
+        for k, v in reversed(self.entries):
+            if eng.truth(key == k): return v
+        if not self.empty and eng.branch(self.has0(key)):
+            kid = key.get_id()
+            if kid not in self.memo: self.memo[kid] = (key, self.base_value(eng, key) if self.base_value else Opaque(self.name + "-value"))
+            return self.memo[kid][1]
+        if default is KeyError: raise PyRaise(Exc("KeyError"))
+        return default
+    def store(self, key, value): self.entries.append((zstr(key), value))
+
 class SymObjList:
     """a list of objects of symbolic length n; element i is produced by factory(eng, i) (a generic element: the factory may fork on its kind)"""
     def __init__(self, n, factory): self.n, self.factory = n, factory
@@ -770,6 +794,7 @@ class Engine:
         if isinstance(a, TypeV) or isinstance(b, TypeV): return a is b
         raise Unsupported(f"identity {a!r} {b!r}")
     def contains(self, container, item):
+        if isinstance(container, SymMap): return container.contains(item)
         if isinstance(container, Obj):
             if "__contains__" in container.attrs: return self.call(container.attrs["__contains__"], [item], {})
             if isinstance(container.cls, ClassV) and container.cls.lookup("__contains__") is not None:
@@ -861,6 +886,9 @@ class Engine:
                     r = z3.If(L == k, z3.Concat(_v, padk) if k else padk, r)
                 return r
             return Builtin("bytes.ljust", bljust)
+        if isinstance(v, SymMap):
+            if attr == "get": return Builtin("dict.get", lambda eng, key, default=None, _m=v: _m.lookup(eng, key, default))
+            raise Unsupported(f"symbolic dict .{attr}")
         if isinstance(v, SymList):
             if attr == "append":
                 def lapp(eng, x, _v=v):
@@ -897,6 +925,8 @@ class Engine:
             hi = self.eval(n.slice.upper, env, mod) if n.slice.upper else None
             if n.slice.step is not None: raise Unsupported("slice step")
             return self.sym_slice(v, lo, hi)
+        if isinstance(v, SymMap):
+            return v.lookup(self, self.eval(n.slice, env, mod))
         if isinstance(v, SymSplit):
             idx = self.eval(n.slice, env, mod)
             sep = z3.StringVal(v.sep); L = z3.Length(v.s)
@@ -934,9 +964,8 @@ class Engine:
             if self.branch(z3.Not(has(idx))): raise PyRaise(Exc("KeyError"))
             return val(idx)
         if isinstance(v, dict):
-            if idx not in v:
-                hook = getattr(v, "missing", None)
-                raise PyRaise(Exc("KeyError"))
+            if type(v).__name__ == "defaultdict": return v[idx]
+            if idx not in v: raise PyRaise(Exc("KeyError"))
             return v[idx]
         if isinstance(idx, BitOf) and isinstance(v, (list, tuple)) and len(v) == 2 and all(isinstance(x, (bytes, bytearray)) or is_symbytes(x) for x in v):
             return z3.If(idx.term == 1, to_z3bytes(v[1]), to_z3bytes(v[0]))
@@ -1161,6 +1190,7 @@ class Engine:
         else: size, fn = None, a[0]
         # the abstraction evaluates the body now; the real body may run later: what it reads from enclosing scopes must not change
         self.path.captures.append((getattr(fn, "qualname", "?"), getattr(getattr(fn, "node", None), "lineno", 0), self.free_captures(fn)))
+        self.path.n_deferred = getattr(self.path, "n_deferred", 0) + 1
         value = self.call(fn, [], {})
         typ = getattr(typ, "pytype", typ)
         tname = "int" if typ is int else "bytes" if typ is bytes else "obj"
@@ -1232,7 +1262,11 @@ class Engine:
             else: raise Unsupported("attr store")
         elif isinstance(t, ast.Subscript):
             o = self.eval(t.value, env, mod); i = self.eval(t.slice, env, mod)
-            if isinstance(o, (list, dict)) and not is_sym(i): o[i] = v
+            if isinstance(o, SymMap): o.store(i, v)
+            elif isinstance(o, (list, dict)) and not is_sym(i): o[i] = v
+            elif isinstance(o, dict) and is_symint(i):
+                # int-keyed registry with a symbolic key (internal_prefix_to_state): kept as an association list on the side
+                o.setdefault("__symkeys__", []).append((i, v))
             elif isinstance(o, Obj) and isinstance(o.cls, ClassV) and o.cls.lookup("__setitem__") is not None:
                 self.call(Bound(o, o.cls.lookup("__setitem__")), [i, v], {})
             else: raise Unsupported("subscript store")
